@@ -25,7 +25,7 @@ LEVEL = "exploration"
 RULE = ("index space split round-robin over 8 parts: C01 generator lite->full / full->lite / lite<->lite (payload lengths 1..32), C02 "
         "generator incl. its enumerated fate vectors with a lite transmitter (full or lite peer), C08 sweep over the lite alphabet "
         "(depth 4 quick / 5 thorough), C10 histories on a lite UUT, seeded configuration histories against an inline reference "
-        "encoder, and the load_ack grid (every length 0..34 x pipe -1..6 x FIFO fill 0..3). Non-trivial and distinct as in the "
+        "encoder, and the load_ack grid (every length 0..34 x pipe -1..6 x FIFO fill 0..3 x cached status fresh/stale). Non-trivial and distinct as in the "
         "re-used checks")
 ASSUMPTIONS = ["as C01, C02, C08, C10", "the lite driver always sits on an nRF24L01+ (documented: not compatible with non-plus variants)", "lite write() documents ValueError outside 1..32 bytes in both payload-length modes"]
 CLAUSES = {"c01.*": "payload integrity as C01", "c02.*": "send()/resend() outcomes as C02", "c08.*": "pipe-0 restoration as C08",
@@ -34,7 +34,7 @@ CLAUSES = {"c01.*": "payload integrity as C01", "c02.*": "send()/resend() outcom
 SHRINK_KEYS = ("ops", "faults")
 CHUNK = 100
 NPARTS = 8
-GRID = [(n, p, f) for n in list(range(0, 35)) for p in range(-1, 7) for f in range(4)]
+GRID = [(n, p, f, fresh) for n in list(range(0, 35)) for p in range(-1, 7) for f in range(4) for fresh in (1, 0)]
 
 
 def count(tier):
@@ -110,8 +110,8 @@ def make(i, base_seed, tier):
             else:
                 ops.append([k, bytes(rng.getrandbits(8) for _ in range(rng.randint(1, 5))).hex()])
         return {"seed": seed, "part": "cfg", "ops": ops, "faults": [], "plus": True}
-    n, p, f = GRID[j % len(GRID)]
-    return {"seed": seed, "part": "load_ack", "ops": [[n, p, f]], "faults": [], "plus": True}
+    n, p, f, fresh = GRID[j % len(GRID)]
+    return {"seed": seed, "part": "load_ack", "ops": [[n, p, f, fresh]], "faults": [], "plus": True}
 
 
 def run(scn):
@@ -291,14 +291,15 @@ def _cfg(scn, w, res):
 
 
 def _load_ack(scn, w, res):
-    n, pipe, fill = scn["ops"][0] if scn["ops"] else (1, 0, 0)
+    n, pipe, fill, fresh = (list(scn["ops"][0]) + [1])[:4] if scn["ops"] else (1, 0, 0, 1)
     radio = w.radio("U", plus=scn.get("plus", True))
     drv = RF24Lite(*w.bus(radio, backend="busio"))
     drv.open_rx_pipe(1, b"1Node")
     drv.listen = True
     for k in range(fill):
         drv.load_ack(bytes([k + 1]) * 3, 1)
-    drv.update()
+    if fresh:
+        drv.update()      # otherwise the driver's cached STATUS is the (pre-command, M1) byte of the last W_ACK_PAYLOAD
     radio.spi_log = []
     fifo0 = [dict(e) for e in radio.tx_fifo]
     feat0, dyn0 = radio.feat, radio.dynpd
@@ -326,7 +327,7 @@ def _load_ack(scn, w, res):
         if r is not False or len(radio.tx_fifo) != 3:
             res.add("load_ack", dict(sig, kind="full_fifo"), "load_ack on a full TX FIFO returned %r (FIFO now %d)" % (r, len(radio.tx_fifo)))
     res.nontrivial = True
-    res.isig = hashlib.blake2b(repr(("load_ack", n, pipe, fill)).encode(), digest_size=8).hexdigest()
+    res.isig = hashlib.blake2b(repr(("load_ack", n, pipe, fill, fresh)).encode(), digest_size=8).hexdigest()
     res.sample = {"part": "load_ack", "len": n, "pipe": pipe, "queued": fill, "returned": repr(r)}
 
 
